@@ -12,7 +12,19 @@ import torch  # noqa: E402
 from cv import algos, graphs  # noqa: E402
 from cv.core import VERIF, Check  # noqa: E402
 
-THEOREMS = []
+THEOREMS = [
+    "Cv.walksClassic_spec",
+    "Cv.c6w_draws",
+    "Cv.walksNbt_spec",
+    "Cv.walksBfs_spec",
+    "Cv.c6w_inj",
+    "Cv.walksBfs_exact",
+    "Cv.walksBfs_exact_sharp",
+    "Cv.c6w_layers",
+    "Cv.c6w_layer",
+    "Cv.c6w_ecc",
+    "Cv.c6w_wide",
+]
 
 
 class DrawRecorder:
